@@ -136,9 +136,13 @@ fn run(args: &[String]) {
             _ => usage(),
         }
     }
-    if let Err(e) = model::self_check() {
-        eprintln!("HARNESS-ERROR {}", e);
-        std::process::exit(3);
+    // (under Miri the self-check alone takes minutes; the Miri lane only adds UB detection to runs
+    // whose oracles were already self-checked natively)
+    if tier != Tier::Miri {
+        if let Err(e) = model::self_check() {
+            eprintln!("HARNESS-ERROR {}", e);
+            std::process::exit(3);
+        }
     }
     let units = (prop.plan)(tier);
     let t0 = Instant::now();
